@@ -117,7 +117,7 @@ func overlapWorks() []overlapWork {
 	}
 	ws := []overlapWork{
 		{"program A", []byte("/who (A) def /val 1111 def /arr [1 2 3 (abc) /nm] def\n"), 9, raw},
-		{"program B", []byte("/who (B) def /val 2222 def <48656c6c6f> /s exch def 7 8 mul\n"), 7, raw},
+		{"program B", []byte("/who (B) def /val 2222 def <48656c6c6f> /s exch def 7 8 mul << /a 1 >> << /b 2 >> eq 1 dict 1 dict ne\n"), 7, raw},
 		{"eexec program (tiny)", eexecTiny, 24, raw},
 		{"eexec program", eexecHex, 64, raw},
 		{"type1.Read(pfa)", corpus.Fonts()[0].Data, 700, font},
